@@ -32,11 +32,12 @@ type c16Shape struct {
 	NewMatch bool
 	SameRV   bool
 	Deleting bool
-	Sets     int // 0,1,2
+	Sets     int  // 0,1,2
+	SelExpr  bool // the sets select by matchExpressions only
 }
 
 func (s c16Shape) String() string {
-	return fmt.Sprintf("%s owner %s->%s labels match %v->%v sameRV=%v deleting=%v sets=%d", s.Kind, s.OldOwner, s.NewOwner, s.OldMatch, s.NewMatch, s.SameRV, s.Deleting, s.Sets)
+	return fmt.Sprintf("%s owner %s->%s labels match %v->%v sameRV=%v deleting=%v sets=%d selector-by-expressions=%v", s.Kind, s.OldOwner, s.NewOwner, s.OldMatch, s.NewMatch, s.SameRV, s.Deleting, s.Sets, s.SelExpr)
 }
 
 func c16Owners(web, db *asv1.StatefulSet) map[string]*metav1.OwnerReference {
@@ -105,6 +106,15 @@ func runC16(ctx *Ctx) *Result {
 			}
 		}
 	}
+	// the same space again with sets whose (valid) selector consists of matchExpressions only
+	n0 := len(shapes)
+	for i := 0; i < n0; i++ {
+		if shapes[i].Sets > 0 {
+			x := shapes[i]
+			x.SelExpr = true
+			shapes = append(shapes, x)
+		}
+	}
 	res.Extra["shape_space_size"] = len(shapes)
 	for i, sh := range shapes {
 		if !ctx.mine(i % ctx.N) {
@@ -115,6 +125,12 @@ func runC16(ctx *Ctx) *Result {
 		web.UID = "uid-web"
 		db := world.NewSet(world.SetOpts{Name: "db", Replicas: 1}) // overlapping selector app=web
 		db.UID = "uid-db"
+		if sh.SelExpr {
+			for _, x := range []*asv1.StatefulSet{web, db} {
+				x.Spec.Selector = &metav1.LabelSelector{MatchExpressions: []metav1.LabelSelectorRequirement{{Key: "app", Operator: metav1.LabelSelectorOpIn, Values: []string{"web", "web2"}}}}
+			}
+			res.Stats["shapes_with_expression_selectors"]++
+		}
 		present := map[string]*asv1.StatefulSet{}
 		if sh.Sets >= 1 {
 			w.Indexer(simapi.Sets).Add(web)
@@ -406,9 +422,9 @@ func c16Worker(ctx *Ctx, res *Result, w *world.World, report func(int, string, s
 
 func init() {
 	register(&Check{Prop: "C16", Level: "exploration", Exhaustive: true,
-		Rule:   "exhaustive over event shapes: kind {add, update, delete, tombstone, tombstone of a non-pod} x owner reference {none, this set, overlapping set, stale UID, other kind, unknown set} (old x new for updates) x label match (old x new) x resourceVersion equal/different x deletionTimestamp x sets present {0, 1, 2 with overlapping selectors}, delivered to the handlers the controller itself registered (captured at AddEventHandler) and observed at the work queue: required ⊆ enqueued ⊆ allowed per a reference model written from the statement; set events: add / delete / tombstone / 9 kinds of update; worker bookkeeping: k in {0,1,2,5,17,24} injected consecutive failures then success through the real processNextWorkItem on a virtual-time queue (NumRequeues counts up, key waits for its back-off, Forget on success); non-trivial = shapes with a required wake-up",
+		Rule:   "exhaustive over event shapes: kind {add, update, delete, tombstone, tombstone of a non-pod} x owner reference {none, this set, overlapping set, stale UID, other kind, unknown set} (old x new for updates) x label match (old x new) x resourceVersion equal/different x deletionTimestamp x sets present {0, 1, 2 with overlapping selectors} x selector by matchLabels / by matchExpressions only, delivered to the handlers the controller itself registered (captured at AddEventHandler) and observed at the work queue: required ⊆ enqueued ⊆ allowed per a reference model written from the statement; set events: add / delete / tombstone / 9 kinds of update; worker bookkeeping: k in {0,1,2,5,17,24} injected consecutive failures then success through the real processNextWorkItem on a virtual-time queue (NumRequeues counts up, key waits for its back-off, Forget on success); non-trivial = shapes with a required wake-up",
 		Assume: []string{"the work queue is the harness' deterministic virtual-time implementation of workqueue.RateLimitingInterface; the property is about the controller's calls on it", "sets in the cache have valid selectors (a sibling with an unparsable selector makes GetPodStatefulSets fail for every set of the namespace; noted, outside the quantifier)"},
 		Cases:  func(string) int { return 16 }, Run: runC16,
 		Race: runLive("C16"), RaceCases: scenarioCases(16, 160),
-		Floors: []string{"pod_event_shapes", "shapes_with_required_wakeups", "set_event_shapes", "failed_reconciles_through_worker", "successful_reconciles_through_worker"}})
+		Floors: []string{"pod_event_shapes", "shapes_with_required_wakeups", "shapes_with_expression_selectors", "set_event_shapes", "failed_reconciles_through_worker", "successful_reconciles_through_worker"}})
 }
